@@ -5,6 +5,13 @@ use std::path::Path;
 
 pub const SHA1: gix_hash::Kind = gix_hash::Kind::Sha1;
 
+/// Self-test switch: `VERIF_BREAK_ORACLE=<name>` deliberately breaks one reference/oracle of the harness so that the
+/// violation + replay machinery can be exercised without touching /repo (see notes/CNN.md). Never set in normal runs.
+pub fn oracle_broken(name: &str) -> bool {
+    static V: std::sync::OnceLock<Option<String>> = std::sync::OnceLock::new();
+    V.get_or_init(|| std::env::var("VERIF_BREAK_ORACLE").ok()).as_deref() == Some(name)
+}
+
 pub fn adler32(data: &[u8]) -> u32 {
     let (mut a, mut b) = (1u32, 0u32);
     for chunk in data.chunks(5000) {
@@ -70,7 +77,9 @@ pub fn ref_encode_ofs(mut ofs: u64) -> Vec<u8> {
         if ofs == 0 {
             break;
         }
-        ofs -= 1;
+        if !oracle_broken("c07-ofs") {
+            ofs -= 1;
+        }
         pos -= 1;
         buf[pos] = 128 | (ofs & 127) as u8;
     }
